@@ -8,8 +8,17 @@ _G = {}
 
 
 def tables():
+    """the grammar tables of the working tree; when they can no longer be read off the token classes (the grammar is no longer a table of classes: the Tie A
+    obligation of C05 / C06 fails, core reports that) the INPUT GENERATORS fall back to the tables of the pinned tree, so that the search for a failing input
+    still has formulas to try - nothing is judged against the fallback"""
     if not _G:
-        _G.update(extract.grammar_tables())
+        try:
+            _G.update(extract.grammar_tables())
+        except Exception as e:  # noqa
+            import json, os
+            _G.update(json.load(open(os.path.join(os.path.dirname(os.path.abspath(__file__)), 'grammar_fallback.json'))))
+            _G['keywords'] = [tuple(k) for k in _G['keywords']]
+            _G['fallback'] = '%s: %s' % (type(e).__name__, e)
         _G['kw'] = dict(_G['keywords'])
     return _G
 
